@@ -51,7 +51,7 @@ PROPS = {
     "C03": {
         "level": "exploration",
         "hang_is_violation": True,
-        "units": [U("joinl", "TestC03", q(40000), q(300000, 16))],
+        "units": [U("joinl", "TestC03", q(40000), q(300000, 16)), U("joinl", "TestC03Elem", q(3000), q(30000, 2))],
         "assumptions": [BUBBLE, RAPID, SAMPLED],
     },
     "C08": {
@@ -95,7 +95,7 @@ PROPS = {
     },
     "C02": {
         "level": "exploration",
-        "units": [U("prio", "TestC02", q(8000), q(60000, 16))],
+        "units": [U("prio", "TestC02", q(8000), q(60000, 16)), U("prio", "TestC02Elem", q(2000), q(20000, 2))],
         "assumptions": [BUBBLE, RAPID, SAMPLED, "one producer per input channel, so the order of writing is a total order per channel"],
     },
     "C05": {
